@@ -30,19 +30,37 @@ def _unwrap(t, ctor):
     return t.arg(0) if (z3.is_app(t) and t.num_args() == 1 and t.decl().name() == ctor) else None
 
 
+def _is_ite(t):
+    return z3.is_app(t) and t.decl().kind() == z3.Z3_OP_ITE
+
+
 def kind(t):
     k = _CTOR_KIND.get(t.decl().name()) if z3.is_app(t) else None
-    return z3.IntVal(k) if k is not None else _kind(t)
+    if k is not None:
+        return z3.IntVal(k)
+    if _is_ite(t):
+        a, b = kind(t.arg(1)), kind(t.arg(2))
+        if z3.is_int_value(a) and z3.is_int_value(b):
+            return a if a.as_long() == b.as_long() else z3.If(t.arg(0), a, b)
+    return _kind(t)
 
 
 def bval(t):
     a = _unwrap(t, "mk_bool")
-    return a if a is not None else _bval(t)
+    if a is not None:
+        return a
+    if _is_ite(t) and static_kind(t.arg(1)) == K_BOOL and static_kind(t.arg(2)) == K_BOOL:
+        return z3.If(t.arg(0), bval(t.arg(1)), bval(t.arg(2)))
+    return _bval(t)
 
 
 def ival(t):
     a = _unwrap(t, "mk_int")
-    return a if a is not None else _ival(t)
+    if a is not None:
+        return a
+    if _is_ite(t) and static_kind(t.arg(1)) == K_INT and static_kind(t.arg(2)) == K_INT:
+        return z3.If(t.arg(0), ival(t.arg(1)), ival(t.arg(2)))
+    return _ival(t)
 
 
 def fval(t):
@@ -88,7 +106,13 @@ def fresh(prefix, sort=V):
 
 def static_kind(t):
     if z3.is_app(t):
-        return _CTOR_KIND.get(t.decl().name())
+        k = _CTOR_KIND.get(t.decl().name())
+        if k is not None:
+            return k
+        if t.decl().kind() == z3.Z3_OP_ITE:
+            a, b = static_kind(t.arg(1)), static_kind(t.arg(2))
+            if a is not None and a == b:
+                return a
     return None
 
 
@@ -134,6 +158,17 @@ def is_numeric(v):
 
 
 def truthy(v):
+    if z3.is_app(v) and v.decl().kind() == z3.Z3_OP_ITE:
+        return z3.If(v.arg(0), truthy(v.arg(1)), truthy(v.arg(2)))
+    sk = static_kind(v)
+    if sk == K_BOOL:
+        return bval(v)
+    if sk == K_NONE:
+        return z3.BoolVal(False)
+    if sk == K_INT:
+        return ival(v) != 0
+    if sk == K_STR:
+        return z3.Length(sval(v)) > 0
     return z3.If(kind(v) == K_NONE, z3.BoolVal(False),
            z3.If(kind(v) == K_BOOL, bval(v),
            z3.If(kind(v) == K_INT, ival(v) != 0,
